@@ -74,3 +74,12 @@ Lemma edit_stale_witness : exists gs es hs,
 Proof.
   exists gsA, [eFull], histEd. destruct ex_edit_stale as (A & B). rewrite A, B. discriminate.
 Qed.
+
+(** an in-place edit of an object that has no cache entry (never queried by a filtering engine) is harmless for every engine:
+    all later answers are the fresh answers on the new graph values *)
+Theorem edit_uncached vf2b enum gs es i g' c qs : cache_inv gs c -> (forall na, cache_get (i, na) c = None) -> (i < length gs)%nat ->
+  run_from vf2b enum (set_nth gs i g') es qs c = map (fun q => fst (step vf2b enum (set_nth gs i g') es q [])) qs.
+Proof.
+  intros Hc Hn Hl. apply (no_history vf2b enum (set_nth gs i g') es qs c).
+  apply edit_keeps_inv; auto. intros na h E. rewrite Hn in E. discriminate.
+Qed.
